@@ -1,6 +1,6 @@
-package e2e17
+package c17
 
-// End-to-end part of C17: route actions, timeouts and the retry policy observed through a running MOSN.
+// End-to-end part of C17: route actions, timeouts and the retry policy e2eObserved through a running MOSN.
 //
 //   redirect / direct response   configured status, Location (parsed components), body, empty upstream log
 //   header mutations             route -> virtual host -> router level adds (append / overwrite) and removes,
@@ -319,13 +319,13 @@ type hdrLevel struct {
 	Remove []string
 }
 
-var hdrNames = []string{"x-a", "x-b", "X-C", "x-d", "X-Verif-E"}
+var e2eHdrNames = []string{"x-a", "x-b", "X-C", "x-d", "X-Verif-E"}
 
 func genLevel(label string) *rapid.Generator[hdrLevel] {
 	return rapid.Custom(func(t *rapid.T) hdrLevel {
 		var l hdrLevel
 		for i, n := 0, rapid.IntRange(0, 3).Draw(t, label+"Adds"); i < n; i++ {
-			op := hdrOp{Name: rapid.SampledFrom(hdrNames).Draw(t, "name"), Value: fmt.Sprintf("%s%d", label[:1], rapid.IntRange(0, 9).Draw(t, "value"))}
+			op := hdrOp{Name: rapid.SampledFrom(e2eHdrNames).Draw(t, "name"), Value: fmt.Sprintf("%s%d", label[:1], rapid.IntRange(0, 9).Draw(t, "value"))}
 			switch rapid.IntRange(0, 2).Draw(t, "append") {
 			case 0:
 				b := true
@@ -337,7 +337,7 @@ func genLevel(label string) *rapid.Generator[hdrLevel] {
 			l.Add = append(l.Add, op)
 		}
 		for i, n := 0, rapid.IntRange(0, 2).Draw(t, label+"Removes"); i < n; i++ {
-			l.Remove = append(l.Remove, rapid.SampledFrom(hdrNames).Draw(t, "remove"))
+			l.Remove = append(l.Remove, rapid.SampledFrom(e2eHdrNames).Draw(t, "remove"))
 		}
 		return l
 	})
@@ -351,9 +351,9 @@ func (l hdrLevel) opts() ([]*v2.HeaderValueOption, []string) {
 	return add, l.Remove
 }
 
-// fold is the reference: per level, adds in order (append joins with "," when the header exists with a
+// e2eFold is the reference: per level, adds in order (append joins with "," when the header exists with a
 // non-empty value, otherwise the value is set), then removes; levels in the order route, virtual host, router.
-func fold(initial map[string]string, levels []hdrLevel) map[string]string {
+func e2eFold(initial map[string]string, levels []hdrLevel) map[string]string {
 	h := map[string]string{}
 	for k, v := range initial {
 		h[strings.ToLower(k)] = v
@@ -374,9 +374,9 @@ func fold(initial map[string]string, levels []hdrLevel) map[string]string {
 	return h
 }
 
-func observed(h [][2]string) map[string][]string {
+func e2eObserved(h [][2]string) map[string][]string {
 	out := map[string][]string{}
-	for _, n := range hdrNames {
+	for _, n := range e2eHdrNames {
 		if vs := mesh.HeaderValues(h, n); len(vs) > 0 {
 			out[strings.ToLower(n)] = vs
 		}
@@ -388,7 +388,7 @@ func headersCase(rt *rapid.T) {
 	reqLv := []hdrLevel{genLevel("route").Draw(rt, "reqRoute"), genLevel("vhost").Draw(rt, "reqVhost"), genLevel("global").Draw(rt, "reqRouter")}
 	respLv := []hdrLevel{genLevel("Route").Draw(rt, "respRoute"), genLevel("Vhost").Draw(rt, "respVhost"), genLevel("Global").Draw(rt, "respRouter")}
 	reqInit, respInit := map[string]string{}, map[string]string{}
-	for _, n := range hdrNames {
+	for _, n := range e2eHdrNames {
 		if rapid.IntRange(0, 2).Draw(rt, "reqHas") == 0 {
 			reqInit[n] = fmt.Sprintf("c%d", rapid.IntRange(0, 9).Draw(rt, "reqVal"))
 		}
@@ -431,7 +431,7 @@ func headersCase(rt *rapid.T) {
 	ev.Case(partE2E, multi, []byte("headers|"+desc), func() interface{} { return desc }, classes...)
 
 	var respHdr [][2]string
-	for _, n := range hdrNames {
+	for _, n := range e2eHdrNames {
 		if v, ok := respInit[n]; ok {
 			respHdr = append(respHdr, [2]string{n, v})
 		}
@@ -457,7 +457,7 @@ func headersCase(rt *rapid.T) {
 	}
 	defer cs.Close()
 	var reqHdr [][2]string
-	for _, n := range hdrNames {
+	for _, n := range e2eHdrNames {
 		if v, ok := reqInit[n]; ok {
 			reqHdr = append(reqHdr, [2]string{n, v})
 		}
@@ -471,7 +471,7 @@ func headersCase(rt *rapid.T) {
 		fail(rt, "headers/upstream-request-count", "%s: the upstream saw %d requests", desc, len(lg))
 	}
 	compare := func(side string, want map[string]string, got map[string][]string, raw [][2]string) {
-		for _, n := range hdrNames {
+		for _, n := range e2eHdrNames {
 			k := strings.ToLower(n)
 			w, wok := want[k]
 			g, gok := got[k]
@@ -481,12 +481,12 @@ func headersCase(rt *rapid.T) {
 			case !wok && gok:
 				fail(rt, "headers/"+side+"-header-not-removed", "%s: %s side: %q should be absent but is %q (arrived %v)", desc, side, k, g, raw)
 			case wok && (len(g) != 1 || g[0] != w):
-				fail(rt, "headers/"+side+"-header-value-wrong", "%s: %s side: %q is %q, the reference fold gives %q (arrived %v)", desc, side, k, g, w, raw)
+				fail(rt, "headers/"+side+"-header-value-wrong", "%s: %s side: %q is %q, the reference e2eFold gives %q (arrived %v)", desc, side, k, g, w, raw)
 			}
 		}
 	}
-	compare("request", fold(reqInit, reqLv), observed(lg[0].Header), lg[0].Header)
-	compare("response", fold(respInit, respLv), observed(res.Header), res.Header)
+	compare("request", e2eFold(reqInit, reqLv), e2eObserved(lg[0].Header), lg[0].Header)
+	compare("response", e2eFold(respInit, respLv), e2eObserved(res.Header), res.Header)
 }
 
 func render(lv []hdrLevel) string {
@@ -706,7 +706,7 @@ func timeoutCase(rt *rapid.T) {
 	for i, c := range candidates {
 		src[i] = c.String()
 	}
-	fail(rt, "timeout/wrong-source-applied", "%s: expected the %s timeout to apply, observed %s after %v (%s), three times", desc, src[want], src[fired], el, detail)
+	fail(rt, "timeout/wrong-source-applied", "%s: expected the %s timeout to apply, e2eObserved %s after %v (%s), three times", desc, src[want], src[fired], el, detail)
 }
 
 // ---------------------------------------------------------------- retry
